@@ -1,0 +1,35 @@
+//go:build verif
+// +build verif
+
+package zap
+
+import "sync/atomic"
+
+// Verification hooks (build tag `verif`): count fresh allocations of the two
+// process-wide scratch pools, so that a monitor can tell how often a build
+// or a stored-field visit really ran on a recycled object.  Add-only: with
+// the tag off this file is not compiled.
+
+var (
+	verifInterimNew  int64
+	verifVisitCtxNew int64
+)
+
+func init() {
+	origInterim := interimPool.New
+	interimPool.New = func() interface{} {
+		atomic.AddInt64(&verifInterimNew, 1)
+		return origInterim()
+	}
+	origVisit := visitDocumentCtxPool.New
+	visitDocumentCtxPool.New = func() interface{} {
+		atomic.AddInt64(&verifVisitCtxNew, 1)
+		return origVisit()
+	}
+}
+
+// VerifPoolStats returns the number of fresh (non-recycled) objects handed
+// out so far by the builder pool and by the stored-field scratch pool.
+func VerifPoolStats() (interimNew, visitCtxNew int64) {
+	return atomic.LoadInt64(&verifInterimNew), atomic.LoadInt64(&verifVisitCtxNew)
+}
